@@ -383,7 +383,7 @@ def finish(ctx, assumptions, functions, bounds, outside, rule):
     code = 0
     os.makedirs(os.path.join(VERIF, 'replays'), exist_ok=True)
     for nd in ctx.m_not_decided:
-        print('NOTE property=%s engine-M group not decided on this tree (code shape not recognised by the MIR translator; the other engines of this check still ran): %s — %s'
+        print('NOTE property=%s part of this check not decided on this tree (code shape not recognised by the translator / model; the other parts of the check still ran): %s — %s'
               % (ctx.pid, nd['group'], nd['reason'][:300]))
     for f, kf in known_hits:
         print('KNOWN-FINDING: property=%s %s' % (f.prop, kf.get('what', f.key)))
